@@ -149,6 +149,43 @@ fn steady_scenario(kind: &str, n: usize) -> Scenario {
     sc
 }
 
+/// Accounted peak of (k open elements under a selector) + (an unfinished tag of t bytes cut by a
+/// write boundary) against the peaks of the two parts alone.
+fn check_additive(case: &Case, st: &mut Stats) -> CheckResult {
+    let mut it = case.mode.split(':');
+    let (_, k, t) = (it.next(), it.next().and_then(|s| s.parse::<usize>().ok()).unwrap_or(10), it.next().and_then(|s| s.parse::<usize>().ok()).unwrap_or(100));
+    let nest = "<div>".repeat(k);
+    let tail = format!("<img alt=\"{}", "x".repeat(t));
+    let peak = |doc: String, cut: usize| -> Result<(usize, bool), HarnessError> {
+        let mut sc = Scenario::new(doc.into_bytes());
+        sc.handlers = vec![wl::el_observer("div"), wl::el_observer("img")];
+        sc.prealloc = 0;
+        sc.cuts = vec![cut];
+        sc.finish = Finish::Drop;
+        let h = driver::run_opts(&sc, &driver::RunOpts { record_charges: true, light: false, record_positions: false }).map_err(HarnessError)?;
+        Ok((h.charges.iter().copied().max().unwrap_or(0), matches!(h.outcome, Outcome::Dropped)))
+    };
+    // the tail is delivered in two writes so that its head has to be buffered
+    let (pa, oka) = peak(nest.clone(), nest.len())?;
+    let (pb, okb) = peak(tail.clone(), tail.len() / 2)?;
+    let (pab, okab) = peak(format!("{nest}{tail}"), nest.len() + tail.len() / 2)?;
+    st.evaluations += 3;
+    st.distinct.insert(crate::rng::hash_str(&case.mode));
+    if !(oka && okb && okab) {
+        return Err(HarnessError("additivity scenario did not run to completion".into()));
+    }
+    // the buffer of the combined run also holds nothing of the nesting part (consumed), so the
+    // parts add up exactly; allow the arena's rounding
+    if pab + 64 < pa + pb {
+        return Ok(Err(Fail::new(
+            "C10.accounted",
+            format!("{k} open elements account for a peak of {pa} bytes, an unfinished {t}-byte tag for {pb}, both together for {pab} < {pa} + {pb}: nesting and retained input are not charged to one budget"),
+        )));
+    }
+    st.bump("c10.additive_budget");
+    Ok(Ok(()))
+}
+
 fn check_steady(case: &Case, st: &mut Stats) -> CheckResult {
     let mut it = case.mode.split(':');
     let (_, kind, n) = (it.next(), it.next().unwrap_or("distinct"), it.next().and_then(|s| s.parse::<usize>().ok()).unwrap_or(6000));
@@ -220,6 +257,14 @@ impl Property for C10 {
             ex.stats.bump("c10.steady_state_measurements");
             ex.check(c);
         }
+        if rng.chance(1, 40) {
+            // one budget: open-element bookkeeping and retained input are charged to the same
+            // counter, so the accounted peak of "nesting + an unfinished tag" is the sum of the parts
+            let mut c = Case::of(Scenario::new(vec![]));
+            c.mode = format!("additive:{}:{}", rng.range(1, 60), rng.range(20, 400));
+            ex.stats.bump("c10.additivity_measurements");
+            ex.check(c);
+        }
         let base = gen_base(rng, tier);
         let Ok(pre) = faults::prerun(&base) else { return };
         let cap = if tier == Tier::Quick { 60 } else { 200 };
@@ -249,6 +294,9 @@ impl Property for C10 {
     fn check(&self, case: &Case, st: &mut Stats) -> CheckResult {
         if case.mode.starts_with("steady:") {
             return check_steady(case, st);
+        }
+        if case.mode.starts_with("additive:") {
+            return check_additive(case, st);
         }
         let sc = &case.sc;
         let Some(m) = sc.max_mem else {
